@@ -19,6 +19,15 @@ CHECKS = {
  "C03": dict(level="exploration", design="§4 C03",
    text="Seeded differential monitoring of ConfigStd.Marshal against encoding/json.Marshal over freshly compiled encoder programs (random reflect-built types + catalogue with Marshaler/TextMarshaler on value and pointer receivers, erroring and invalid-output marshalers, every map key kind, recursive and embedded types), values passed by value, by pointer, inside []interface{} and inside map[string]interface{}; outputs compared as token streams (numbers byte-exact, strings by denoted value, order exact) and error-or-not; jit, sse and vm processes.",
    technique="runtime differential monitor vs encoding/json.Marshal; token-stream oracle via a reference parser"),
+ "C11": dict(level="exploration", design="§4 C11",
+   text="Cross-process equivalence monitoring: the C01 case list is decoded in three processes (jitdec, SONIC_USE_OPTDEC=1, +SONIC_USE_FASTMAP=1) and per-case digests (error-or-not + canonical deep dump) are compared for every json.Valid document; all processes must reject structurally malformed documents. The verif bridge reports the implementation really in use.",
+   technique="cross-process digest diff over a shared seeded case list (runtime monitoring of both implementations); bridge-reported configuration"),
+ "C12": dict(level="exploration", design="§4 C12",
+   text="Cross-process equivalence monitoring: the C03 value list is encoded with encoder.Encode under a random one of the 2^9 option sets in a JIT process and a SONIC_ENCODER_USE_VM=1 process; digests of (error-or-not, output bytes) are compared byte for byte.",
+   technique="cross-process digest diff over a shared seeded case list; all 2^9 option sets sampled"),
+ "C13": dict(level="exploration", design="§4 C13",
+   text="Cross-process equivalence monitoring of every public API backed by a native routine (parse, validate, skip, search, quote, unquote, HTML escape, UTF-8 validation/correction, number parsing and formatting) between an AVX2 process and a SONIC_MODE=noavx2 process, over SIMD block sweeps (all lengths x positions) and seeded random inputs; transcripts include error positions.",
+   technique="cross-process transcript digest diff (AVX2 vs SSE tables) over enumerated block sweeps and seeded inputs"),
  "C19": dict(level="exploration", design="§4 C19",
    text="Seeded differential monitoring of every number conversion route (30+ routes per literal: all integer widths, float32/64, json.Number, interface{} under default/UseNumber/UseInt64, string-tagged fields, integer map keys, ast accessors, Interface, Preorder callbacks) against strconv/encoding/json, with math/big-built exact midpoints; formatting of floats/ints byte-for-byte against encoding/json; all 2^32 float32 patterns in the thorough tier (exhaustive for float32 formatting and shortest-text decoding). jit/optdec/vm/sse configurations each get a share.",
    technique="runtime differential monitor vs strconv/encoding/json; exhaustive float32 bit-pattern sweep (thorough); seeded boundary/midpoint literals"),
